@@ -91,6 +91,31 @@ package simpledb
 //@   call 0 of Upsert: assert [C13,C02:no-rotation-between-log-and-apply] walRot(db.wal) == old(walRot(db.wal)) && db.memStore == old(db.memStore)
 //@   modifies walCount(db.wal), mst(old(db.memStore.writeStore), content(keyBytes)), mvl(old(db.memStore.writeStore), content(keyBytes)), walRot(db.wal), db.memStore
 
+// C17: the string API is the byte API on the bytes of the strings - same key, same value, same answer, same error.
+//@ func (*DB).Get
+//@   props C17 C01
+//@   requires db.rwLock != nil && db.sstableManager != nil && db.sstableManager.managerLock != nil && db.memStore != nil &&
+//@            db.memStore.writeStore != nil && db.memStore.readStore != nil && db.sstableManager.currentReader != nil
+//@   call 0 of DB.GetBytes: assert [C17:same-key] content(arg0) == content(key)
+//@   exit [C17:same-error] called(DB.GetBytes, 0) && r1 == callres(DB.GetBytes, 0, 1)
+//@   exit [C17:same-value] r1 == nil ==> content(r0) == content(callres(DB.GetBytes, 0, 0))
+//@   exit [C17:no-value-with-an-error] r1 != nil ==> len(r0) == 0
+
+//@ func (*DB).Put
+//@   props C17 C01
+//@   requires [C18:lock-free-at-entry] !lkW(db.rwLock)
+//@   requires db.rwLock != nil && db.wal != nil && db.memStore != nil && db.memStore.writeStore != nil && db.memStore.readStore != nil
+//@   exit [C17:empty-rejected-without-a-call] (len(key) == 0 || len(value) == 0) ==> r0 == ErrEmptyKeyValue && !called(DB.PutBytes, 0)
+//@   call 0 of DB.PutBytes: assert [C17:same-key-and-value] content(arg0) == content(key) && content(arg1) == content(value)
+//@   exit [C17:same-error] len(key) != 0 && len(value) != 0 ==> called(DB.PutBytes, 0) && r0 == callres(DB.PutBytes, 0, 0)
+
+//@ func (*DB).Delete
+//@   props C17 C01
+//@   requires [C18:lock-free-at-entry] !lkW(db.rwLock)
+//@   requires db.rwLock != nil && db.wal != nil && db.memStore != nil && db.memStore.writeStore != nil && db.memStore.readStore != nil
+//@   call 0 of DB.DeleteBytes: assert [C17:same-key] content(arg0) == content(key)
+//@   exit [C17:same-error] called(DB.DeleteBytes, 0) && r0 == callres(DB.DeleteBytes, 0, 0)
+
 //@ func (*DB).DeleteBytes
 //@   props C17 C02 C13 C01 C18
 //@   replay db_rejected_calls
